@@ -512,6 +512,10 @@ impl Sim {
             self.flag(&["C01"], "I-fund", &kind, "", d.clone());
         }
         if !accepted {
+            // what the contract asked for is judged even when the chain could not carry it out
+            if let Some(acc) = res.emitted.clone() {
+                self.c10_messages(&kind, sender, &acc, &res, &tags);
+            }
             // rollback is the chain's; nothing else to check
             if self.chain.storage.data != storage_pre || self.chain.ledger != ledger_pre {
                 self.flag(&["C01"], "harness.rollback", &kind, "", "rollback incomplete".into());
